@@ -62,7 +62,7 @@ var c08History = probe.Define("C08", "history", func(t *rapid.T) c08In {
 	n := gen.Len(t, "nsteps", 1, 200, 1, 2, 100, 200)
 	for i := 0; i < n; i++ {
 		in.Steps = append(in.Steps, c08Step{Encr: rapid.IntRange(0, 2).Draw(t, "encr"), Integ: rapid.IntRange(0, 3).Draw(t, "integ"),
-			Nonce: gen.BytesLen(t, "nonces", 0, 256, 0, 1, 32, 64, 256)})
+			Nonce: gen.BytesLen(t, "nonces", 0, 600, 0, 1, 32, 64, 256, 257, 272, 273, 512, 600)})
 	}
 	return in
 }, func(in c08In) probe.Outcome {
